@@ -645,11 +645,13 @@ class PixelAlgorithms(AccessorBase):
             coords = {k: c for k, c in xx.coords.items() if k != "time"}
             return xarray.DataArray(data=data, dims=xx.dims[1:], coords=coords)
 
+        # nodata goes in as a keyword: as a positional argument None would reach
+        # the kernel as a 0-d object array on dask-backed input
         return xarray.apply_ufunc(
             ops.autocorr,
             xx,
-            nodata,
-            input_core_dims=[["time"], []],
+            kwargs={"nodata": nodata},
+            input_core_dims=[["time"]],
             dask="parallelized",
             output_dtypes=["float32"],
         )
